@@ -323,7 +323,7 @@ func (n *Node) ToGo() interface{} {
 	if n.Kind == KPrim {
 		return n.Prim
 	}
-	if n.HasA || len(n.A) > 0 {
+	if (n.HasA || len(n.A) > 0) && len(n.D) == 0 {
 		l := make([]interface{}, 0, len(n.A))
 		for _, v := range n.A {
 			l = append(l, v.ToGo())
